@@ -150,6 +150,33 @@ func runC16(c *Ctx) {
 				ok = false
 				c.violated("C16.exit-always", cons, fn.Pos(), "the loop ends on this path without running the exit routine (exitOnce.Do): the exit callback is not called, the connection stays open and the connection count is never decremented", c.witness(t, len(t.Events)-1)...)
 			}
+			// the receive loop ends only because something failed — a deadline or read error, the read handler's
+			// error, a panic. A local Close ends the session through the send queue (loopSend flushes, then exits);
+			// a receive loop that also watches a "closing" flag runs the exit routine, which closes the connection,
+			// while bytes accepted by Send are still being written
+			if lname == "loopReceive" {
+				failed := false
+				facts := t.factsBefore(len(t.Events))
+				for _, e := range t.Events {
+					if e.Kind == EvPanic {
+						failed = true
+					}
+					if e.Kind == EvCall && e.Res != nil && !e.Deferred {
+						errv := e.Res
+						if errv.Kind == KTuple && len(errv.Args) > 0 {
+							errv = errv.Args[len(errv.Args)-1]
+						}
+						if errv != nil && errv.Typ != nil && errv.Typ.String() == "error" &&
+							hasFact(facts, func(f Fact) bool { return f.X.Key() == errv.Key() && f.Op == token.NEQ && f.Y.isNilConst() }) {
+							failed = true
+						}
+					}
+				}
+				if !failed && ok {
+					ok = false
+					c.violated("C16.flush", cons+" exit", fn.Pos(), "the receive loop ends on a path where no read, deadline or handler call failed: its exit routine closes the connection although nothing is wrong with it — after a local Close the bytes still queued for sending are cut off instead of flushed", c.witness(t, len(t.Events)-1)...)
+				}
+			}
 			// the defers are registered before the first fallible step
 			firstDefer, firstCall := -1, -1
 			ndef := 0
